@@ -14,7 +14,7 @@ pub fn def() -> CheckDef {
         meta: CheckMeta {
             id: "C02",
             level: "fault_enumeration",
-            rule: "generated histories (small and large transactions, bucket deletes, growth from a 4-page file, page reuse, histories whose free list spans several pages: a few hundred page-sized values deleted at once, then small commits; histories that resize one value so that its leaf is exactly 2-4 pages long or one byte off; 1 history in 8 is turned into a legacy-format (<= 0.10 headers) file half-way; per shard 4 (thorough 8) histories with two commits of about a thousand pages each, sized so that the number of page writes per commit sweeps through 1024 across the shards; in 5 of 16 histories every write transaction is accompanied by a short-lived reader, open when the writer begins and closed before its commit or right after its begin) are executed by a worker process under the LD_PRELOAD I/O shim, which logs every write (offset, bytes), sync and file size on the database descriptor, with markers around every commit. For every group of writes between two completed syncs the analyser synthesises crash images on a scratch file: every subset of the unsynced writes (exhaustive up to 10 writes; above: none/all, singletons, complements, prefixes = process kill, suffixes, header-only, data-only, seeded random subsets), each write additionally torn at 512-byte sectors (prefix lost / tail lost / seeded sector subset) and header writes at 8-byte word granularity (every word prefix, every single word missing, every single word alone, seeded word subsets), with the file-size change durable or lost. Oracle per image: the independent parser says structurally sound and shows exactly S_{i-1} or S_i (exactly S_i once commit i has returned), and reopening through the public API succeeds and dumps the same. An evaluation is one distinct image (by content). Non-trivial = image with at least one but not all writes of its group applied, or a torn write.",
+            rule: "generated histories (small and large transactions, bucket deletes, growth from a 4-page file, page reuse, histories whose free list spans several pages: a few hundred page-sized values deleted at once, then small commits; histories that resize one value so that its leaf is exactly 2-4 pages long or one byte off; 1 history in 8 is turned into a legacy-format (<= 0.10 headers) file half-way; two histories whose free list exceeds 4091 entries (a page image above 32 KiB); per shard 4 (thorough 8) histories with two commits of about a thousand pages each, sized so that the number of page writes per commit sweeps through 1024 across the shards; in 5 of 16 histories every write transaction is accompanied by a short-lived reader, open when the writer begins and closed before its commit or right after its begin) are executed by a worker process under the LD_PRELOAD I/O shim, which logs every write (offset, bytes), sync and file size on the database descriptor, with markers around every commit. For every group of writes between two completed syncs the analyser synthesises crash images on a scratch file: every subset of the unsynced writes (exhaustive up to 10 writes; above: none/all, singletons, complements, prefixes = process kill, suffixes, header-only, data-only, seeded random subsets), each write additionally torn at 512-byte sectors (prefix lost / tail lost / seeded sector subset) and header writes at 8-byte word granularity (every word prefix, every single word missing, every single word alone, seeded word subsets), with the file-size change durable or lost. Oracle per image: the independent parser says structurally sound and shows exactly S_{i-1} or S_i (exactly S_i once commit i has returned), and reopening through the public API succeeds and dumps the same. An evaluation is one distinct image (by content). Non-trivial = image with at least one but not all writes of its group applied, or a torn write.",
             assumptions: &[
                 "power-loss model: writes issued since the last completed fsync/fdatasync may be lost, reordered or torn at sector (header: word) granularity; a completed sync is durable including the file size",
                 "crashes during initial file creation are out of scope of the property",
@@ -286,6 +286,27 @@ pub fn bigcommit_history(n: u16, seed: u64) -> HistoryCase {
     HistoryCase { cfg: Cfg { pagesize: 1024, num_pages: if seed % 2 == 0 { 4 } else { 4000 }, strict: false, populate: false }, fresh_handles: false, txs, dance: 0 }
 }
 
+/// A bucket of about 4300 page-sized values is filled and then deleted: the free list written by
+/// the deleting commit (and by the small commits after it) has more than 4091 entries, i.e. its
+/// page image exceeds 32 KiB.
+pub fn huge_freelist_history(n: u16) -> HistoryCase {
+    let mut fill = vec![Op::GetOrCreate { b: 0, k: KeySel::Lit(b"big".to_vec()), kk: 2 }, Op::GetOrCreate { b: 0, k: KeySel::Lit(b"small".to_vec()), kk: 2 }];
+    let mut at = 0u16;
+    while at < n {
+        let m = (n - at).min(250) as u8;
+        fill.push(Op::PutRun { b: 0, base: vec![b'v'], start: at, step: 1, n: m, klen: 0, vlen: 1000 });
+        at += m as u16;
+    }
+    let mut txs = vec![
+        TxSpec { kind: TxKind::Commit, ops: fill },
+        TxSpec { kind: TxKind::Commit, ops: vec![Op::DeleteBucket { b: 0, k: KeySel::Lit(b"big".to_vec()), kk: 2 }] },
+    ];
+    for i in 0..2u16 {
+        txs.push(TxSpec { kind: TxKind::Commit, ops: vec![Op::PutRun { b: 0, base: vec![b's'], start: i * 3, step: 1, n: 3, klen: 0, vlen: 100 }] });
+    }
+    HistoryCase { cfg: Cfg { pagesize: 1024, num_pages: 32, strict: false, populate: false }, fresh_handles: false, txs, dance: 0 }
+}
+
 pub fn crash_history(seed: u64) -> HistoryCase {
     if seed % 8 == 5 {
         return big_freelist_history(seed);
@@ -317,6 +338,9 @@ fn shard(ctx: &ShardCtx, known: &Known) -> ShardOut {
         let history = if i + nbig >= n {
             let j = (ctx.shard * nbig + (i + nbig - n)) as u16;
             bigcommit_history(1870 + j, seed)
+        } else if i == 0 && ctx.shard % 8 == 5 {
+            // two shards: a free list of more than 4091 entries (page image above 32 KiB)
+            huge_freelist_history(4250 + 60 * (ctx.shard as u16 / 8))
         } else {
             crash_history(seed)
         };
